@@ -910,6 +910,10 @@ class DocTest:
                             exc_got = ''.join(exc_lines)
                             want = part.want
                             checker.check_exception(exc_got, want, runstate)
+                            # This want has been answered (by the exception):
+                            # what was printed before it is not "output since
+                            # the previous want" for the wants that follow.
+                            self._unmatched_stdout = []
                         else:
                             raise
                     else:
